@@ -18,6 +18,7 @@
 //!         retain j | size j | clone j                                          -> ok | size=n | handles=n
 //!         guard <term>         term.unsubscribe_when_dropped() kept in a slot  -> ok
 //!         dropguard k          drop the k-th guard                             -> ok
+//!         unsubreapp j <term>  append to m_j a child whose unsubscribe() appends <term> to m_j, then m_j.unsubscribe() -> ok
 //!         emit v               subject.next(v): every live leaf's probe logs   -> d=0:N5;2:N5
 //!         run                  run the executor until idle                     -> t=T0;T1
 use std::sync::{Arc, Mutex};
@@ -54,7 +55,21 @@ fn task_body((log, tag): (Log, usize)) -> NormalReturn<()> {
 }
 
 macro_rules! impl_suite {
-  ($run:ident, $world:ident, $subject:ty, $subscriber:ident, $multi:ty, $bx:ident, $bxty:ty, $sched:ty, $queue:expr) => {
+  ($run:ident, $world:ident, $reapp:ident, $subject:ty, $subscriber:ident, $multi:ty, $bx:ident, $bxty:ty, $sched:ty, $queue:expr) => {
+    struct $reapp {
+      target: $multi,
+      payload: $bxty,
+    }
+
+    impl Subscription for $reapp {
+      fn unsubscribe(mut self) {
+        self.target.append(self.payload);
+      }
+      fn is_closed(&self) -> bool {
+        false
+      }
+    }
+
     struct $world {
       leaves: Vec<$subscriber<Probe>>,
       multis: Vec<Vec<$multi>>,
@@ -108,6 +123,17 @@ macro_rules! impl_suite {
           }
           "unsub" => {
             w.build(&ev[1]).unsubscribe();
+            "ok".to_string()
+          }
+          "unsubreapp" => {
+            // a child whose own unsubscribe() appends <term> to the SAME composite (a late addition made
+            // WHILE the composite is being torn down), then the composite is unsubscribed
+            let j = ev[1].nat();
+            let payload = w.build(&ev[2]);
+            let child = $reapp { target: w.multis[j][0].clone(), payload };
+            let mut h = w.multis[j][0].clone();
+            h.append($bx::new(child));
+            w.multis[j][0].clone().unsubscribe();
             "ok".to_string()
           }
           "closed" => {
@@ -168,6 +194,7 @@ macro_rules! impl_suite {
 impl_suite!(
   run_local,
   WorldLocal,
+  ReAppLocal,
   Subject<'static, i64, i64>,
   Subscriber,
   MultiSubscription<'static>,
@@ -179,6 +206,7 @@ impl_suite!(
 impl_suite!(
   run_threads,
   WorldThreads,
+  ReAppThreads,
   SubjectThreads<i64, i64>,
   SubscriberThreads,
   MultiSubscriptionThreads,
